@@ -59,3 +59,28 @@ Theorem p2g_left_inverse : forall ps Ns p,
    (forall i j, i < nth p Ns 0 -> j < nth p Ns 0 -> conn ps (p, i) (p, j) -> i = j)).
 Proof. exact p2g_left_inverse_l. Qed.
 Print Assumptions p2g_left_inverse.
+
+(* Histories of join_boundaries calls on valid faces of two different existing patches (any
+   flips, any order, repetitions): every paired dof exists, no dof is paired with itself, and
+   therefore the numbering is a gap-free bijection onto the classes -- no hypothesis on the
+   identifications is left. *)
+From Verif.C14 Require Import ProofsBd.
+
+Theorem boundary_joins_pair_existing_dofs : forall shapes j e,
+  bjoin_ok shapes j -> In e (bjoin_pairs shapes j) ->
+  fst e <> snd e /\ valid (map prod_list shapes) (fst e) /\ valid (map prod_list shapes) (snd e).
+Proof. exact bjoin_pairs_ok. Qed.
+Print Assumptions boundary_joins_pair_existing_dofs.
+
+Theorem glob_in_range_boundaries : forall shapes js x,
+  valid (map prod_list shapes) x ->
+  glob (run shapes js) (map prod_list shapes) x < numdofs (run shapes js) (map prod_list shapes).
+Proof. exact glob_in_range_boundaries_l. Qed.
+Print Assumptions glob_in_range_boundaries.
+
+Theorem glob_gapfree_boundaries : forall shapes js g,
+  Forall (bjoin_ok shapes) js ->
+  g < numdofs (run shapes js) (map prod_list shapes) ->
+  exists x, valid (map prod_list shapes) x /\ glob (run shapes js) (map prod_list shapes) x = g.
+Proof. exact glob_gapfree_boundaries_l. Qed.
+Print Assumptions glob_gapfree_boundaries.
